@@ -25,6 +25,54 @@ func c06Extra(t *rapid.T, sc *Scenario) {
 	}
 }
 
+// genC06Namesakes: a directed family for cluster-scoped owners: 2-3 ClusterObjectSet revisions that list the same pool
+// object twice, once per namespace (namesakes), in different phases; the successor is usually held in an early phase by a
+// probe, so the handover stays partial while the predecessor keeps reconciling.
+func genC06Namesakes(t *rapid.T) *Scenario {
+	sc := &Scenario{Prop: "C06"}
+	n := rapid.IntRange(2, 3).Draw(t, "nrev")
+	pool := rapid.IntRange(0, 3).Draw(t, "pool")
+	ctrls := []string{engine.CtrlClusterObjectSet, engine.CtrlClusterObjectSet, engine.CtrlClusterObjectSetPhase}
+	for i := 0; i < n; i++ {
+		a := ObjSpec{Pool: pool, Variant: i}
+		b := ObjSpec{Pool: pool, Variant: i, Special: "nsb"}
+		if rapid.Bool().Draw(t, "swap") {
+			a, b = b, a
+		}
+		class := func() string {
+			return rapid.SampledFrom([]string{"", "", engine.ClassDefault}).Draw(t, "class")
+		}
+		set := SetSpec{Cluster: true}
+		switch rapid.IntRange(0, 3).Draw(t, "layout") {
+		case 0:
+			set.Phases = []PhaseSpec{{Name: "p0", Class: class(), Objs: []ObjSpec{a, b}}}
+		case 1:
+			set.Phases = []PhaseSpec{{Name: "p0", Class: class(), Objs: []ObjSpec{a}}, {Name: "p1", Class: class(), Objs: []ObjSpec{{Pool: pool + 1, Variant: i}}}, {Name: "p2", Class: class(), Objs: []ObjSpec{b}}}
+		default:
+			set.Phases = []PhaseSpec{{Name: "p0", Class: class(), Objs: []ObjSpec{a}}, {Name: "p1", Class: class(), Objs: []ObjSpec{b}}}
+		}
+		if i > 0 && rapid.IntRange(0, 3).Draw(t, "gated") > 0 {
+			set.Probes = GenProbes(t)
+		}
+		for j := 0; j < i; j++ {
+			set.Previous = append(set.Previous, j)
+		}
+		sc.Steps = append(sc.Steps, Step{Op: "createSet", Set: &set})
+		if i == 0 || rapid.Bool().Draw(t, "settle") {
+			sc.Steps = append(sc.Steps, Step{Op: "quiesce"})
+		}
+		for k := rapid.IntRange(0, 6).Draw(t, "nsteps"); k > 0; k-- {
+			if rapid.IntRange(0, 3).Draw(t, "x") == 0 {
+				c06Extra(t, sc)
+			} else {
+				sc.Steps = append(sc.Steps, GenReconcile(t, ctrls))
+			}
+		}
+	}
+	sc.Steps = append(sc.Steps, Step{Op: "quiesce"})
+	return sc
+}
+
 func TestC06(t *testing.T) {
 	st := NewStats("C06", "engine", "scenario = chains of 1-3 revisions (local/delegated phases) with rollout, handover, probe regressions (workload status changes), pause, archival, deletion, restarts, API faults and user spec edits injected between a pass's read and its status write; every successful status write is compared with what the same pass observed; non-trivial = a status write with Available=True happened and (a handover or a pass after Archived=True or an in-pass owner edit) occurred")
 	opts := SetGenOpts{AllowClass: true, Classes: []string{engine.ClassDefault}, CPs: []string{"", "", "IfNoController", "None"}, PoolSize: 5, MaxObjs: 2, MaxPhases: 3, ChainBias: true}
@@ -36,7 +84,12 @@ func TestC06(t *testing.T) {
 	CheckOrReplay(t, st, func(data []byte) (any, error) {
 		return ReplayScenario(data, func(sc *Scenario) *Runner { r, _, _ := mk(sc); return r })
 	}, func(rt *rapid.T) {
-		sc := genChainWorldTP(rt, "C06", opts, c06Extra, false)
+		var sc *Scenario
+		if rapid.IntRange(0, 5).Draw(rt, "family") == 0 {
+			sc = genC06Namesakes(rt)
+		} else {
+			sc = genChainWorldTP(rt, "C06", opts, c06Extra, false)
+		}
 		r, m, _ := mk(sc)
 		err := r.Run()
 		st.Count("passes", int64(len(r.W.Passes)))
@@ -54,6 +107,11 @@ func TestC06(t *testing.T) {
 		}
 		if handover {
 			r.Labels["handover"] = true
+		}
+		for _, st := range sc.Steps {
+			if st.Op == "createSet" && st.Set != nil && st.Set.Cluster {
+				r.Labels["family-cluster-namesakes"] = true
+			}
 		}
 		nt := r.Labels["c06-available-true-written"] && (handover || r.Labels["c06-pass-after-archived"] || r.Labels["owner-edited-in-pass"])
 		st.Case(sc, nt, r.LabelList()...)
